@@ -87,6 +87,14 @@ def check_bin(ip, c):
                 again = ip.binImgs(data, n)              # the same stack binned a second time
                 if not np.array_equal(np.asarray(again), want):
                     bad.append(("binImgs:block-sum:second-call-on-same-array:%s" % name, {}))
+    # a binning factor that comes out of a division (0.6 / 0.2 = 2.9999999999999996, 1.2 / 0.4, 6.0 / 2.0) is the integer it stands for
+    for nf in (n * (0.6 / 0.2) / 3.0 if n == 3 else float(n), float(n) - 2e-16 * n if n > 1 else 1.0, np.float64(n), np.int64(n)):
+        if int(np.round(nf)) != n:
+            continue
+        gotf = np.asarray(ip.binImgs(base.copy(), nf))
+        if gotf.shape != exp.shape or not np.array_equal(gotf, exp):
+            bad.append(("binImgs:block-sum:non-integer-typed-factor", dict(factor=repr(nf), shape=list(gotf.shape), expected_shape=list(exp.shape))))
+            break
     # a bad pixel (nan, inf) spoils the block that contains it and no other: every output block is a function of its own pixels
     cells = [cell for row in c["out"] for cell in row]
     for poison in (np.nan, np.inf):
@@ -130,6 +138,11 @@ def check_azi(psf, c, rng):
             if not ok:
                 bad.append(("azimuthal_average:ring-mean", dict(n=n, ring=k, got=float(got[k]), expected=e1)))
                 break
+        for dt32, tol32 in ((np.float32, 0.0), (np.uint8, 0.0), (np.int32, 0.0)):                   # narrower types: same ring means (exactly, for these integers)
+            g32 = np.asarray(psf.azimuthal_average(img.astype(dt32)), float)
+            if g32.shape != got.shape or not np.allclose(g32, got, rtol=0, atol=1e-12):
+                bad.append(("azimuthal_average:narrow-dtype-image", dict(n=n, dtype=np.dtype(dt32).name, got=g32.tolist(), float64=got.tolist())))
+                break
         gi = np.asarray(psf.azimuthal_average(img.astype(np.int64)), float)              # detector counts as integers
         if gi.shape != got.shape or not np.allclose(gi, got, rtol=0, atol=1e-12):
             bad.append(("azimuthal_average:integer-image", dict(n=n, got=gi.tolist(), float=got.tolist())))
@@ -139,6 +152,13 @@ def check_azi(psf, c, rng):
             bad.append(("azimuthal_average:within-min-max", dict(n=n, got=got.tolist())))
         if bad:
             break
+    # a constant single-precision image (values that are not exactly representable sums) averages to that constant (to double precision: 1e-12)
+    if not bad:
+        for cval in (np.float32(0.1), np.float32(1000.3), np.float32(3.7e-5)):
+            g = np.asarray(psf.azimuthal_average(np.full((n, n), cval, dtype=np.float32)), float)
+            if g.shape != (n // 2,) or np.any(np.abs(g - float(cval)) > 1e-12 * float(cval)):          # (double-precision summation of equal values)
+                bad.append(("azimuthal_average:constant-image:float32", dict(n=n, value=float(cval), got=g.tolist())))
+                break
     # a very bright core on a flat halo (a saturated star): every ring that holds no core pixel averages to the halo exactly
     if not bad and len(c["rings"]) >= 2:
         core_px = [tuple(p) for p in c["rings"][0]] + centre
